@@ -1,4 +1,6 @@
 import AaVerif.Ref.GrammarLemmas
+import AaVerif.Ref.GrammarPtrace
+import AaVerif.Ref.GrammarSignal
 import AaVerif.Aa.Parse
 import AaVerif.Aa.Sort
 import AaVerif.Generated.AaTables
@@ -190,5 +192,48 @@ theorem C12_reader_rejects_example :
     Ref.read T (S "capability nonsense,") = none ∧ Ref.read T (S "/a rz,") = none ∧
     Ref.read T (S "signal send set=(nosuch),") = none ∧ Ref.read T (S "ptrace (read peer=a,") = none ∧
     Ref.read T (S "deny /a r -> ,") = none ∧ Ref.read T (S "network inet nosuchtype,") = none := by decide +kernel
+
+/-! ## Ptrace rules, symbolically: a parenthesised list and a condition -/
+
+/-- every ptrace access of the regenerated table is a keyword-like word -/
+theorem ptrace_access_words : ∀ a ∈ reqValues T "ptrace" "access", Aa.Parse.CapW a := by decide +kernel
+
+/-- **Ptrace rules, every access list and every peer word** (symbolic, no enumeration): for every qualifier, EVERY
+non-empty list of ptrace accesses of the table (any length, order, repetition; printed bare when it has one element, as
+`(a b …)` otherwise) and EVERY keyword-like peer word, the reference reader accepts the printed text - its own word
+splitter keeps the group together, `listOf` opens it, `cond` reads the peer - and finds the access set in table order
+and exactly that peer. -/
+theorem C12_ptrace_all (audit deny : Bool) (accs : List Text) (p : Text) (ha : accs ≠ [])
+    (h : ∀ a ∈ accs, a ∈ reqValues T "ptrace" "access") (hp : Aa.Parse.CapW p) :
+    Ref.read T (renderRule (Aa.Parse.ptraceRule audit deny accs p) (padOf [])) =
+      some (mkR "ptrace" { audit := audit, deny := deny, owner := false }
+        [.l (mergeValues T "ptrace" "access" accs []), .s p]) :=
+  read_ptrace T audit deny accs p ha (fun a hm => ⟨ptrace_access_words a (h a hm), by simpa using h a hm⟩) hp
+
+example : Ref.read T (renderRule (Aa.Parse.ptraceRule false true [S "trace", S "read"] (S "foo//bar")) (padOf []))
+    = some (mkR "ptrace" { audit := false, deny := true, owner := false } [.l [S "read", S "trace"], .s (S "foo//bar")]) := by
+  rw [C12_ptrace_all false true _ _ (by simp) (by decide +kernel) (by decide)]
+  decide +kernel
+
+/-! ## Signal rules, symbolically: a condition whose value is a list -/
+
+/-- every signal access and every signal of the regenerated tables is a keyword-like word -/
+theorem signal_words :
+    (∀ a ∈ reqValues T "signal" "access", Aa.Parse.CapW a) ∧ (∀ s ∈ reqValues T "signal" "set", Aa.Parse.CapW s) := by
+  constructor <;> decide +kernel
+
+/-- **Signal rules, every access list, every signal list, every peer word** (symbolic): for every qualifier, EVERY
+non-empty list of signal accesses and EVERY non-empty list of signals of the tables (any length, order, repetition) and
+EVERY keyword-like peer word, the reference reader accepts the printed text (`set=(hup int)` stays one word, `cond` cuts
+the key off, `listOf` opens the group) and finds both sets in table order and exactly that peer. -/
+theorem C12_signal_all (audit deny : Bool) (accs set : List Text) (p : Text) (ha : accs ≠ []) (hs : set ≠ [])
+    (h : ∀ a ∈ accs, a ∈ reqValues T "signal" "access") (h' : ∀ s ∈ set, s ∈ reqValues T "signal" "set")
+    (hp : Aa.Parse.CapW p) :
+    Ref.read T (renderRule (Aa.Parse.signalRule audit deny accs set p) (padOf [])) =
+      some (mkR "signal" { audit := audit, deny := deny, owner := false }
+        [.l (mergeValues T "signal" "access" accs []), .l (mergeValues T "signal" "set" set []), .s p]) :=
+  read_signal T audit deny accs set p ha hs
+    (fun a hm => ⟨signal_words.1 a (h a hm), by simpa using h a hm⟩)
+    (fun a hm => ⟨signal_words.2 a (h' a hm), by simpa using h' a hm⟩) hp
 
 end C12
